@@ -589,16 +589,29 @@ def conflict_decision(ck, rule, test_fn=None, only_label_numbers=False):
         if test_fn is None:
             raise AnalysisError("AlignmentSegment.endOverlapsWithStartOf not found")
     n = 0
+    cases = []
     for pa in explore(ck, fn):
         if pa.outcome != "return":
             continue
-        v = pa.value
+        base = []
+        for c, tv, _ in pa.state.assumptions:
+            c0, pos = T.positive(c)
+            base.append((c0, tv if pos else (not tv)))
+
+        def split(v, conds):
+            if v[0] == "select":                      # a conditional expression is its two cases
+                c0, pos = T.positive(v[1])
+                split(v[2], conds + [(c0, pos)])
+                split(v[3], conds + [(c0, not pos)])
+            else:
+                cases.append((v, conds, pa))
+        split(pa.value, base)
+    for v, conds, pa in cases:
         no_conflict = (v[0] == "new" and v[1].endswith("NoConflict")) or (v[0] == "app" and "NoConflict" in v[1])
         if not no_conflict:
             continue
         n += 1
         w = where(fn, pa.node)
-        conds = [(c, tv) for c, tv, _ in pa.state.assumptions]
 
         def is_test(c):
             return (c[0] == "app" and c[1] == test_fn.qualname) or (c[0] == "mcall" and c[2] == test_fn.name)
